@@ -3,11 +3,14 @@
 package main
 
 import (
+	"fmt"
 	"sort"
 	"strings"
 
 	"github.com/github/go-spdx/v2/spdxexp"
 )
+
+const hooksAvailable = true
 
 // evalExpand: the OR-of-ANDs expansion (unexported node.expand, reached through the guarded hook
 // spdxexp/verif_hooks.go), as a sorted list of sorted alternatives
@@ -28,4 +31,47 @@ func evalExpand(e string) string {
 	}
 	sort.Strings(out)
 	return "E " + strings.Join(out, "|")
+}
+
+// evalTokens: scan() - role letter + hex value per token
+func evalTokens(e string) string {
+	roles, values, err := spdxexp.VerifTokens(e)
+	if err != nil {
+		return "T E"
+	}
+	if len(roles) == 0 {
+		return "T -"
+	}
+	out := make([]string, len(roles))
+	for i := range roles {
+		out[i] = string(roles[i]) + hx(values[i])
+	}
+	return "T " + strings.Join(out, ",")
+}
+
+// evalTree: parse() - the tree in node.string() notation
+func evalTree(e string) string {
+	s, err := spdxexp.VerifTree(e)
+	if err != nil {
+		return "P E"
+	}
+	return "P " + hx(s)
+}
+
+// evalRange: getLicenseRange()
+func evalRange(id string) string {
+	g, v, ok := spdxexp.VerifRange(id)
+	if !ok {
+		return "N none"
+	}
+	return fmt.Sprintf("N %d %d", g, v)
+}
+
+// evalAllowed: stringsToNodes + sortAndDedup as Satisfies uses them
+func evalAllowed(l []string) string {
+	out, err := spdxexp.VerifAllowed(l)
+	if err != nil {
+		return "K E"
+	}
+	return "K " + hxl(out)
 }
